@@ -354,8 +354,11 @@ def c03_3(c: Ctx) -> None:
     head = heads[0]
     # ordering: the walk is reached after marking the event on all normal paths
     marks = [n for n in g.live_nodes() if mark_calls(n, ev)]
+    root_atom = f'{ev}.event_parent_id'
+    froot = Facts(lambda a: a == root_atom, cg=c.cg, unit=u)
     for m in marks:
-        p = q.pair_search(g, m, lambda x: x is head, exc_ok=lambda e: False)
+        # (an event without a parent has no ancestors: a path that is taken only when `not event.event_parent_id` skips a walk of zero iterations)
+        p = q.reach_search(g, [(m, {})], lambda x, d: q.is_exit(x) and d.get(root_atom) not in ('F', 'Fy', 'N'), lambda x, d: x is head, froot, lambda e: False)
         if p is None:
             c.ok(where(u, m.ast), 'after marking the event every normal path enters the parent walk')
         else:
@@ -383,8 +386,12 @@ def c03_3(c: Ctx) -> None:
         if n.kind != 'if':
             return False
         t = U(n.ast.test)
-        if t == f'not {pvar}' and e.label == 'true':
-            return True
+        if e.label in ('true', 'false') and not any(isinstance(x, ast.Call) for x in ast.walk(n.ast.test)):
+            # the branch taken means "no ancestor was found" (`if not parent:` / `if parent is None:` / the else of `if parent:`)
+            fp = Facts(lambda a: a == pvar)
+            env_ = fp.assume(n.ast.test, e.label == 'true', {})
+            if env_ is not None and fp.eval(ast.parse(pvar, mode='eval').body, env_) is False:
+                return True
         if 'is_set()' in t and pvar in t and e.label == 'false':
             # every conjunct must be about the ancestor's completion signal (already signalled / no signal): nothing else may skip it
             conj = n.ast.test.values if isinstance(n.ast.test, ast.BoolOp) and isinstance(n.ast.test.op, ast.And) else [n.ast.test]
@@ -399,6 +406,23 @@ def c03_3(c: Ctx) -> None:
         c.ok(where(u, w), f'every iteration calls {pvar}.{MARK}() unless the ancestor is missing or already signalled')
     else:
         c.fail(u, f'parent-walk iteration skips {pvar}.{MARK}()', 'an incomplete ancestor can be skipped by the upward propagation', node=w, witness=c.path(head, p))
+    # the walk goes all the way up: it is left only through its loop test or where no ancestor was found (an ancestor that is already complete, or still open, is no reason
+    # to stop: the ones above it may have been waiting for exactly this descendant)
+    def not_found_edge(n, e) -> bool:
+        if n.kind != 'if' or e.label not in ('true', 'false') or any(isinstance(x, ast.Call) for x in ast.walk(n.ast.test)):
+            return False
+        fp = Facts(lambda a: a == pvar)
+        env_ = fp.assume(n.ast.test, e.label == 'true', {})
+        return env_ is not None and fp.eval(ast.parse(pvar, mode='eval').body, env_) is False
+
+    p = search([(head, ())], is_target=lambda n, d: n is not head and n.ast is not None and id(n.ast) not in inside and n.kind not in ('raise_exit',),
+               is_barrier=lambda n, d: n is head,
+               edge_ok=lambda n, e, d: None if (e.is_exc or (n is head and e.label != 'true') or not_found_edge(n, e)) else d)
+    if p is None:
+        c.ok(where(u, w), 'the parent walk is left only through its loop test or where no ancestor was found')
+    else:
+        c.fail(u, 'the parent walk can stop below the root although an ancestor was found', 'the ancestors above the point where the walk stops are never re-checked: an ancestor whose last open descendant has just '
+               'finished stays incomplete, `await` on it hangs', node=w, witness=c.path(head, p))
     # advance
     adv = [n for n in ast.walk(w) if isinstance(n, ast.Assign) and U(n.value) == pvar and isinstance(n.targets[0], ast.Name) and n.targets[0].id in test]
     if adv:
